@@ -11,7 +11,7 @@ class _RL(dict):
 UNIT_RLIMIT = _RL({"div_small": 80, "mul_redc": 80})      # unit -> --rlimit (Verus default is 10; 5x head-room over the measured maximum)
 UNIT_TIMEOUT = {"knuth": 1500, "addmul": 900, "mul_redc": 1200}     # unit -> seconds
 UNIT_EXPECT = {       # unit -> minimum number of verified functions on the unchanged tree (vacuity guard)
-    "core": 31, "add": 29, "kernels": 79, "addmul": 71, "addmul_n": 73, "mul": 51, "divd": 45, "div_small": 235, "knuth": 145, "mul_redc": 126, "basics": 22, "pow": 38, "divw": 54, "modular": 70, "spigot": 44, "gcd": 24, "forward": 57, "invring": 47, "bitlen": 81, "shifts": 131, "recip_table": 2, "gcdext": 67, "gcdw": 36, "bits": 78, "conv": 53, "lehmer": 38, "jebelean": 92, "logs": 27, "forward_shift": 81, "fmt_consts": 5, "rotate": 27, "popcount": 29, "conv_slice": 54, "conv_prim": 53, "absdiff": 15, "frombase": 71, "byteslice": 72, "padlimbs": 45, "addnx1": 37, "sumprod": 26, "trailing": 55, "cmpord": 39, "convgen": 20, "shr_raw": 78, "revbits": 49,
+    "core": 31, "add": 29, "kernels": 79, "addmul": 71, "addmul_n": 73, "mul": 51, "divd": 45, "div_small": 235, "knuth": 145, "mul_redc": 126, "basics": 22, "pow": 38, "divw": 54, "modular": 70, "spigot": 44, "gcd": 24, "forward": 57, "invring": 47, "bitlen": 81, "shifts": 131, "recip_table": 2, "gcdext": 67, "gcdw": 36, "bits": 78, "conv": 53, "lehmer": 38, "jebelean": 92, "logs": 27, "forward_shift": 81, "fmt_consts": 5, "rotate": 27, "popcount": 29, "conv_slice": 54, "conv_prim": 53, "absdiff": 15, "frombase": 71, "byteslice": 78, "padlimbs": 45, "addnx1": 37, "sumprod": 26, "trailing": 55, "cmpord": 39, "convgen": 20, "shr_raw": 78, "revbits": 49,
 }
 
 COMMON_TRUST = [
@@ -174,14 +174,14 @@ PROPS = {
                    "is the and/or/xor of the operand bits; canonical), leading_zeros, leading_ones, bit_len, byte_len, count_ones (= pop), count_zeros (= BITS - pop), is_power_of_two (<=> value = 2^k for some k), "
                    "checked_next_power_of_two (Some(least power of two >= value) exactly when it is < 2^BITS), next_power_of_two, trailing_zeros, trailing_ones, reverse_bits and most_significant_bits (bits = floor(value / 2^exponent), bits >= 2^63 whenever exponent > 0, exponent = 0 when the value fits a word). Kani proves per width, for ALL values and fully symbolic usize indices, the same and the rest: "
                    "byte / checked_byte (incl. the documented panic), trailing zeros and ones, reverse_bits, all operator shapes",
-        level_note="trailing_zeros / trailing_ones are proved for all widths in unit trailing (result r: every bit below r is clear resp. set, bit r is set resp. clear when r < BITS, r <= BITS, r == BITS exactly for 0 resp. for MAX) with declared rewrites: `iter().position(closure)` goes through an N14 wrapper whose contract is ASSUMED (first index satisfying the predicate; Kani core_specs_position_len5) and `opt.map_or(d, |n| e)` is written as its definition `match opt { None => d, Some(n) => e }`; reverse_bits is proved for all widths in unit revbits (bit i of the result is bit BITS-1-i of the operand; canonical) - it shifts a NON-canonical intermediate, so unit shr_raw re-proves overflowing_shr under the weaker precondition `sized()` (result = floor(lv(limbs) / 2^s) for arbitrary limbs, canonical whenever that fits); ASSUMED there: u64::reverse_bits mirrors a word and slice::reverse (N14 wrapper) - Kani core_specs_u64_reverse_bits (full domain) / core_specs_array_reverse_len5 - and that `>>=` forwards to overflowing_shr (unit forward_shift); Kani-only (per width, 8-13 widths, complete for each width): byte / checked_byte (unsafe slice view), "
+        level_note="trailing_zeros / trailing_ones are proved for all widths in unit trailing (result r: every bit below r is clear resp. set, bit r is set resp. clear when r < BITS, r <= BITS, r == BITS exactly for 0 resp. for MAX) with declared rewrites: `iter().position(closure)` goes through an N14 wrapper whose contract is ASSUMED (first index satisfying the predicate; Kani core_specs_position_len5) and `opt.map_or(d, |n| e)` is written as its definition `match opt { None => d, Some(n) => e }`; reverse_bits is proved for all widths in unit revbits (bit i of the result is bit BITS-1-i of the operand; canonical) - it shifts a NON-canonical intermediate, so unit shr_raw re-proves overflowing_shr under the weaker precondition `sized()` (result = floor(lv(limbs) / 2^s) for arbitrary limbs, canonical whenever that fits); ASSUMED there: u64::reverse_bits mirrors a word and slice::reverse (N14 wrapper) - Kani core_specs_u64_reverse_bits (full domain) / core_specs_array_reverse_len5 - and that `>>=` forwards to overflowing_shr (unit forward_shift); byte / checked_byte are proved in unit byteslice (digit `index` of the value in base 256; None exactly for index >= BYTES; `index < BYTES` is byte()'s precondition = its documented panic) relative to the ASSUMED little-endian layout of as_le_slice (the raw-pointer view is the base-256 digit string of the value: same fact as for to_le_bytes; Kani c06 per width); "
                    "the forwarding shapes of & | ^. ASSUMED: u64::count_ones = pop (Kani full domain), operator contract of `ONE << exp` (units forward_shift + shifts)",
         technique="deductive contracts (Verus, all widths) + Kani contract harnesses on the compiled crate, complete per width",
-        units=["core", "basics", "bitlen", "bits", "popcount", "trailing", "shr_raw", "revbits"],
+        units=["core", "basics", "bitlen", "bits", "popcount", "trailing", "shr_raw", "revbits", "byteslice"],
         kani=dict(features=None, quick=hs("c06") + hs("core_specs", r"count_ones|position|trailing|reverse"), thorough=hs("c06") + hs("core_specs", r"count_ones|position|trailing|reverse"), bounds="widths 0,1,8,60,63,64,65,100,128,129,192,250,256 (per family see kani/src/c06.rs); all values; all usize indices"),
         explanation="lemma_limb_bit (bit 64l+b of the value is bit b of limb l), lemma_pop_concat (ones of lo + 2^k x), lemma_pop_one (one one <=> power of two); harness-level contracts with bit-by-bit oracles",
         trusted=COMMON_TRUST,
-        not_decided=["byte, checked_byte at widths other than the Kani ones"],
+        not_decided=["the raw-pointer byte view itself (as_le_slice: memory layout, assumed; Kani per width)"],
     ),
     "C07": dict(
         level="other",
